@@ -104,13 +104,9 @@ def nonDyadicFloat (c : NumCheck) : Bool :=
 def checkNumeric (v : GoVal) (nillable : Bool) (c : NumCheck) : Bool :=
   c.accepts ((derefIf nillable v).bind numOf)
 
-/-- the value of a Go RAW string literal whose source text is `p`: the language discards carriage returns inside
-    raw string literals (the pattern is pasted between backticks; known finding K31) -/
-def rawStringValue (p : String) : String := String.ofList (p.toList.filter (fun c => c != '\r'))
-
 /-- stringValidator: byte lengths, pattern through the closed family -/
 def stringPasses (minLen maxLen : Int) (pattern : String) (s : String) : Bool :=
-  (pattern = "" || Spec.patternOK (rawStringValue pattern) s) &&
+  (pattern = "" || Spec.patternOK pattern s) &&
   (minLen == 0 || !decide ((utf8Len s : Int) < minLen)) &&
   (maxLen == 0 || !decide ((utf8Len s : Int) > maxLen))
 
